@@ -11,7 +11,9 @@ CLAIMED = {
     "C01": dict(
         text="PARTIAL (very thin). Solver-backed (MIR->SMT) check of ONE totality hazard: every closure of the parser/validator that is applied to ids drawn from the matcher (29 closures) never calls "
              "unwrap()/expect() directly on Command::find(id) - matcher ids include group ids, for which the lookup is None. Termination, the other expect(INTERNAL_ERROR_MSG)/unreachable! sites, "
-             "error rendering and error-ignoring mode are NOT decided: the parse loop as a whole is out of reach (DESIGN 0).",
+             "error rendering and error-ignoring mode are NOT decided: the parse loop as a whole is out of reach (DESIGN 0). "
+             "Plus short_cluster_resume: the bookkeeping behind parse_short_arg's debug assertion - the number of flags to skip when a cluster is revisited after a flag subcommand is counted on the cluster itself, "
+             "cannot underflow, is reset before use and is written nowhere else.",
         note="Each closure body is executed from its MIR with all callees opaque; the lookup may be None is the only semantic fact used; realised natively through the public API.",
         ref="2 C01", technique="own MIR->SMT translation: panic-edge reachability in closure bodies, z3 + cvc5, native replay"),
     "C02": dict(
@@ -19,7 +21,7 @@ CLAIMED = {
              "per-occurrence grouping in MatchedArg (short symbolic op sequences); (MIR->SMT) ArgMatcher::needs_more_vals == 'pending count < max' and Parser::verify_num_args accepting exactly "
              "the counts inside the declared range; react's delimiter loop contributes every piece of split(value, declared delimiter) unfiltered, and keeps a delimited value whole exactly under dont_delimit_trailing_values at or after the first "
              "trailing index (solver clause over the index arithmetic); parse_long_arg / parse_short_arg return MaybeHyphenValue before any key lookup when the pending option OR positional allows hyphen values. "
-             "Index bookkeeping: one pass of push_arg_values (one value, one index, in that order) and react's rule for the flag's own index. "
+             "Index bookkeeping: one pass of push_arg_values (one value, one index, in that order) and react's rule for the flag's own index; the positional-counter block (see C05) and short_cluster_resume (see C01). "
              "Says nothing about the rest of token classification (DESIGN 0).",
         note="Kernel-level only. Trusted: rustc/Kani translation, std as compiled by Kani, CBMC; for the MIR kernels every callee is a pure opaque value (listed in the evidence).",
         ref="2 C02", technique=MIX),
@@ -28,6 +30,7 @@ CLAIMED = {
              "Validator::validate_exclusive accepts without search iff at most one argument is explicitly present, counts as present exactly the explicit real arguments, and reports an argument "
              "iff it is exclusive and not alone. One pass of each loop of Validator::validate_required from an arbitrary state (who is reported missing; required_if_eq_any is any-of; the highest_index step) "
              "and the data flow of gather_arg_direct_conflicts (own conflicts, every group's conflicts, other members of a non-multiple group, overrides). "
+             "MatchedArg::check_explicit: Equals(v) is decided by ANY raw value matching, case-folded iff ignore_case. "
              "The required graph (gather_requires / unrolling), conflict search over the matcher and is_missing_required_ok's body are opaque and not claimed.",
         note="Detects changes to check_explicit/set_source/is_explicit/ValueSource order, validate_exclusive and its closures, the loop bodies of validate_required and gather_arg_direct_conflicts only.",
         ref="2 C03", technique=MIX),
@@ -51,6 +54,7 @@ CLAIMED = {
         text="PARTIAL. (Kani) source lattice (ValueSource order, set_source keeps the maximum, explicit-ness) for all source sequences <= 3, and the implicit default / "
              "missing-value tables of every ArgAction incl. what Arg::_build installs. (MIR->SMT) fixed phase order of Parser::get_matches_with and its error-ignoring recovery closure: "
              "parse, resolve_pending, add_env, add_defaults, validate on every feasible path. add_env / add_default_value record only EnvVariable / DefaultValue, and supply a value only on paths where matcher.contains(this argument) was consulted and is false, at most once per argument. "
+             "Parser::start_custom_arg removes overridden arguments only for a command-line occurrence (never for env/default values); check_explicit (see C03). "
              "What react does with such values is covered only as far as C02/C07 go.",
         note="Kernel-level only; callees of add_env/add_default_value are opaque.",
         ref="2 C06", technique=MIX),
@@ -58,37 +62,41 @@ CLAIMED = {
         text="PARTIAL. (Kani) action tables for every ArgAction and the default-action / value-count inference of Arg::_build for all num_args ranges, positional or not, 0-2 value names. "
              "(MIR->SMT) every return path of Parser::react classified by the action: Set/SetTrue/SetFalse report ArgumentConflict exactly when an earlier occurrence existed and neither args_override_self nor a "
              "self-override applies (else last wins), Append never removes earlier occurrences, Count is existing.saturating_add(1), SetTrue/SetFalse fill in true/false. "
-             "remove_overrides: every overridden id and every collected overrider is removed (data flow through its loops). Value storage order (push_arg_values) is out of reach.",
+             "remove_overrides: every overridden id and every collected overrider is removed (data flow through its loops); start_custom_arg calls it exactly for command-line occurrences; "
+             "every action arm of react opens its occurrence through Parser::start_custom_arg exactly once before pushing values.",
         note="react's callees (ArgMatcher::remove, start_custom_arg, push_arg_values, ...) are opaque; its loops are cut at the back edge.",
         ref="2 C07", technique=MIX),
     "C08": dict(
         text="PARTIAL (thin). (Kani) lexer-level half of the spelling rewrites: '--name=value' split at the first '=', short cluster walk and exact remainder, "
              "strip of one leading '=' - for all byte strings up to the bound. (MIR->SMT) prefix inference never resolves an ambiguous prefix: possible_subcommand / possible_long_flag_subcommand return an "
-             "inferred name only when the candidate iterator has no second element, parse_long_arg's uniqueness filter and candidate closure likewise; the hyphen-value guard of both classifiers (see C02). Alias keys and whole-ArgMatches equality are out of reach.",
+             "inferred name only when the candidate iterator has no second element, parse_long_arg's uniqueness filter and candidate closure likewise; the hyphen-value guard of both classifiers (see C02); the candidate closures of inference (name first, else the first of ALL aliases / long-flag aliases that starts with the token). Alias keys and whole-ArgMatches equality are out of reach.",
         note="Re-uses C13/C14 harnesses over clap_lex; the candidate iterators themselves are opaque (what they enumerate is not decided).",
         ref="2 C08", technique=MIX),
     "C09": dict(
         text="PARTIAL (very thin). Data-flow check (MIR->SMT path enumeration, feasibility by z3 + cvc5) of Parser::parse_subcommand: on every feasible path the child parser and the child matcher are both created "
              "from the command returned by _build_subcommand(name), the child parser parses into the child's own matcher, the child's matches are attached to the parent matcher exactly once, and a child "
-             "error is returned iff errors are not ignored. Subcommand recognition (names, aliases, flag subcommands, inference), external subcommands and global-argument propagation are NOT decided.",
+             "error is returned iff errors are not ignored. One pass of each loop of Command::_propagate_global_args: a subcommand is skipped iff it is named help AND the help subcommand is autogenerated, "
+             "globals are cloned into a subcommand iff it does not define the id. The candidate closures of subcommand inference (see C08). Exact-name recognition, external subcommands and how matches of globals are copied between levels are NOT decided.",
         note="All callees opaque; argument identity is tracked by the keys of opaque call results; realised natively by a 3-level command with same-named arguments.",
         ref="2 C09", technique="own MIR->SMT translation: call data-flow on paths, infeasibility of violating paths by z3 + cvc5, native replay"),
     "C10": dict(
         text="PARTIAL. (Kani) kind -> stream -> exit code for EVERY ErrorKind (exhaustive match, symbolic discriminant). (MIR->SMT) value-count verification: Parser::verify_num_args rejects "
              "exactly the counts outside the declared range and names the rule really broken (empty / wrong number / too few / too many), never when errors are ignored; the unknown-token triage of match_arg_error (which error for which situation); who is named missing by validate_required (one pass of each of its loops, see C03). "
-             "Conflict justification and suggestions are out of reach.",
+             "The candidate closures of subcommand inference (a valid unique prefix of any alias is not an error; see C08). Conflict justification and suggestions are out of reach.",
         note="Covers Error::new/stream/use_stderr/exit_code, verify_num_args, match_arg_error and the loop bodies of validate_required only.",
         ref="2 C10", technique=MIX),
     "C11": dict(
         text="PARTIAL (very thin). MIR->SMT path enumeration of Command::_build_self: on every feasible path where the Built flag is already set nothing else is called (a second build is a no-op), and every path "
-             "that does build sets the flag before returning (33 paths; inner loops cut). Determinism of parsing, the per-parse bin-name/usage mutation in try_get_matches_from_mut and the key cache are NOT decided.",
+             "that does build sets the flag before returning (33 paths; inner loops cut). bin_name_twins: the per-parse and the build-time computation of subcommand usage names agree on when the required-arguments infix is used "
+             "(solver, 580 paths) and on how the parent prefix is taken - the latter FAILS on the pinned tree for no_binary_name(true) and is a recorded known finding (DESIGN 1.5(9)). "
+             "Determinism of parsing and the key cache are NOT decided.",
         note="All callees opaque; paths through loop bodies are cut at the back edge (their zero-iteration exits are explored). Realised natively by building three times / re-parsing after a failed parse.",
         ref="2 C11", technique="own MIR->SMT translation: call presence on paths, infeasibility of violating paths by z3 + cvc5, native replay"),
     "C12": dict(
         text="PARTIAL. Solver-decided (MIR->SMT, z3 + cvc5) absence of integer overflow/underflow in the help column arithmetic (align_to_about, subcmd, arg_next_line_help, subcommand_next_line_help, "
              "with longest_filter and Arg::is_positional inlined; the link between `longest` and the widths is derived from the MIR of write_args' loop body incl. a discharged monotonicity obligation), "
              "functional equivalence of the visibility predicates should_show_arg / should_show_subcommand with their documented rule; the possible-values block of HelpTemplate::help reaches its "
-             "`.max().expect()` only when some possible value is shown; one pass of Usage::write_args' positional loop skips a hidden positional before anything is rendered or stored for it. "
+             "`.max().expect()` only when some possible value is shown; one pass of Usage::write_args' positional loop skips a hidden positional before anything is rendered or stored for it; option_sort_key is injective on ASCII short flags (no visible option overwrites another in the help map). "
              "Says nothing about section assembly, templates or wrapping.",
         note="Call results (display widths, Arg getters) are free symbols under the contracts listed in the evidence; loops are not encoded (one loop body is); "
              "a sat answer is only reported after a native replay on a family of concrete commands misbehaves.",
@@ -113,7 +121,7 @@ CLAIMED = {
         ref="2 C18", technique="own MIR->SMT translation of a loop body (bit-vectors), z3 + cvc5, native replay"),
     "C19": dict(
         text="PARTIAL (thin). MIR->SMT (z3 + cvc5) on clap_mangen: each of the 8 hidden-item filter closures (synopsis, options, subcommands, possible values, per-subcommand pages, has-arguments / has-subcommands "
-             "predicates) equals `!item.is_hide_set()`, every loop of render::synopsis over arguments/positionals runs over such a filter, and Man::render emits its sections once each in the fixed order with OPTIONS / SUBCOMMANDS / VERSION present iff their guard predicate holds. "
+             "predicates) equals `!item.is_hide_set()`, every loop of render::synopsis over arguments/positionals and every consumer of get_arguments in the options section runs over such a filter, and Man::render emits its sections once each in the fixed order with OPTIONS / SUBCOMMANDS / VERSION present iff their guard predicate holds. "
              "That rendering never panics, determinism, and that author-supplied text cannot start a roff request (escaping is in the third-party roff crate) are NOT decided.",
         note="The section renderers and iterator adaptors are opaque; that the filters are applied to every item is trusted. Realised natively by /verif/native/c19 (32 hide/version/author combinations rendered).",
         ref="2 C19", technique="own MIR->SMT translation: closure equivalence and call order on paths, z3 + cvc5, native replay"),
@@ -169,7 +177,7 @@ def main():
         ],
         "checks": checks,
         "not_applicable": [{"property_id": k, "reason": v} for k, v in sorted(na.items())],
-        "notes": "Every verdict is 'holds for all inputs inside the bound stated in evidence/<id>.json'. exit 2 = inconclusive (timeout/OOM/vacuous harness/unreproduced counterexample), never reported as success. See DESIGN.md.",
+        "notes": "Every verdict is 'holds for all inputs inside the bound stated in evidence/<id>.json'. exit 2 = inconclusive (timeout/OOM/vacuous harness/unreproduced counterexample), never reported as success. Known findings (genuine defects recorded rather than repaired) and the list of repaired ones are in /verif/known_findings.txt: currently one finding (C11, no_binary_name) and eight `fixed:` entries whose fix: commits are in /repo. See DESIGN.md 1.5.",
     }
     with open(os.path.join(VERIF, "MANIFEST.json"), "w") as f:
         json.dump(m, f, indent=1)
